@@ -424,6 +424,10 @@ def gen_swarm(rng, tier="quick"):
             plan.append("rollback")
         elif rng.random() < 0.5:
             plan.append("add")
+        if rng.random() < 0.35:
+            # something else of the same kind in between (another band, another factor): a memo that is "refreshed" by
+            # an unrelated call must not make its older entries look valid again
+            plan.append("fresh:" + rng.choice(first))
         plan += [f"repeat:{j}" for j in again] + ["add"]
         sw["echo"] = plan
         sw["nops"] = len(plan)
